@@ -18,6 +18,7 @@ pub struct C07;
 fn weighted_d() -> BoxedStrategy<D> {
     prop_oneof![
         6 => arb_d(),
+        2 => (arb_word_coeff(), arb_scale()).prop_map(|(c, s)| D::new(c, s)),
         // values in (-1, 1): fractions with leading zeros
         3 => (1u8..=18, any::<u64>(), 0u32..=63, any::<bool>()).prop_map(|(s, r, sh, neg)| {
             let lim = 10i128.pow(s as u32);
@@ -46,7 +47,7 @@ impl Prop for C07 {
     }
     fn rule(&self) -> String {
         "Generated: Decimal representations from all coefficient classes, extra weight on values in (-1, 1) (fractions with leading zeros), 39-digit coefficients, non-normalised zero and trailing zeros. \
-         to_string(), String::from(d), format!(\"{}\") and the text inside Debug's Dec!(..) must equal a reference string built from the decimal digits of |coefficient| (integer formatting of std, padding, point insertion); \
+         to_string(), String::from(d), format!(\"{}\") and the text inside Debug's Dec!(..) (also when Debug is invoked with precision / width / sign / zero / alternate options, directly or through a tuple / Option) must equal a reference string built from the decimal digits of |coefficient| (integer formatting of std, padding, point insertion); \
          Decimal::from_str of that string must return exactly (coefficient, scale); with serde-as-str serde_json::to_string is the JSON string of the same text and from_str of it returns (coefficient, scale). \
          Non-trivial: scale > 0. Distinct: hash of (coefficient, scale)."
             .into()
@@ -120,6 +121,28 @@ impl Prop for C07 {
                 Err(e) => format!("<serialize error {e}>"),
             })),
         ];
+        // Debug must show the same text whatever formatting options the caller (or an
+        // enclosing container's {:.3?}) passes down; padding outside Dec!(..) is ignored
+        let inner = |t: String| -> String {
+            // text between "Dec!(" and the first ')' after it (the canonical text never contains ')')
+            match t.find("Dec!(") {
+                Some(a) => match t[a + 5..].find(')') {
+                    Some(b) => t[a + 5..a + 5 + b].to_string(),
+                    None => format!("<unterminated Dec!(..): {t}>"),
+                },
+                None => format!("<no Dec!(..) wrapper: {t}>"),
+            }
+        };
+        let mut outs = outs;
+        outs.push(("Debug {:.2?}", catch(|| inner(format!("{:.2?}", d)))));
+        outs.push(("Debug {:.0?}", catch(|| inner(format!("{:.0?}", d)))));
+        outs.push(("Debug {:12?}", catch(|| inner(format!("{:12?}", d)))));
+        outs.push(("Debug {:+?}", catch(|| inner(format!("{:+?}", d)))));
+        outs.push(("Debug {:#?}", catch(|| inner(format!("{:#?}", d)))));
+        outs.push(("Debug {:<30.25?}", catch(|| inner(format!("{:<30.25?}", d)))));
+        outs.push(("Debug {:08.3?}", catch(|| inner(format!("{:08.3?}", d)))));
+        outs.push(("Debug in a tuple {:.3?}", catch(|| inner(format!("{:.3?}", (0.5f64, d))))));
+        outs.push(("Debug in Some {:10.1?}", catch(|| inner(format!("{:10.1?}", Some(d))))));
         for (name, r) in outs {
             ctx.sub();
             ctx.note(|| format!("{name}: expected {want:?}, observed {r:?}"));
